@@ -264,6 +264,9 @@ fn gen_hist(rng: &mut Rng) -> (u64, u64, u64) {
     let buf = if n > 256 && buf < 100 { rng.range(100, 600) } else { buf };
     let group = *rng.pick(&[0u64, 0, 0, 1, 2, 3, 4, 4]);
     let psize = rng.range(1, 8) as u64;
+    // the hash-map accumulator flushes on the number of DISTINCT bases: buffer sizes at and just
+    // below the pool size make that happen late in the history
+    let buf = if rng.chance(1, 6) { (psize as usize).saturating_sub(rng.below(2)) } else { buf };
     (n as u64, buf as u64, group | (rng.below(4) as u64) << 4 | psize << 8)
 }
 
